@@ -42,5 +42,8 @@ for pid in ALL:
         })
     else:
         m["not_applicable"].append({"property_id": pid, "reason": na_reasons.get(pid, "not claimed yet (work in progress, DESIGN.md section 10)")})
+CATS = json.load(open("/root/.vp/MANIFEST.schema.json"))["properties"]["checks"]["items"]["properties"]["level_claimed"]["properties"]["category"]["enum"] if os.path.exists("/root/.vp/MANIFEST.schema.json") else ["proof"]
+for c in m["checks"]:
+    assert c["level_claimed"]["category"] in CATS, (c["property_id"], c["level_claimed"]["category"], "not a schema category: put qualifiers in the text")
 json.dump(m, open(os.path.join(V, "MANIFEST.json"), "w"), indent=1)
 print("claimed:", sorted(specs), "not claimed:", [p for p in ALL if p not in specs])
